@@ -296,7 +296,9 @@ func c12RoundTrip(w *mon.W, idx int) {
 	if nontrivialBitmap(orig) {
 		w.Distinct(gen.HashWords(orig))
 	}
-	w.Sample(func() interface{} { return mon.D{"call": "ToArray then Of", "words": truncW(orig, 4), "ones": len(exp)} })
+	w.Sample(func() interface{} {
+		return mon.D{"call": "ToArray then Of", "words": truncW(orig, 4), "ones": len(exp)}
+	})
 }
 
 type c12Seg struct {
@@ -392,7 +394,9 @@ func c12OfMany(w *mon.W, idx int) {
 	if len(merged) > 0 && len(segs) >= 2 {
 		w.Distinct(gen.Hash64(hashI32(merged), hashI32(sizes)))
 	}
-	w.Sample(func() interface{} { return mon.D{"call": "OfMany", "subs": fmt.Sprint(subs), "sizes": sizes, "words": len(got)} })
+	w.Sample(func() interface{} {
+		return mon.D{"call": "OfMany", "subs": fmt.Sprint(subs), "sizes": sizes, "words": len(got)}
+	})
 }
 
 func c12Builder(w *mon.W, idx int) {
@@ -490,5 +494,7 @@ func c12Builder(w *mon.W, idx int) {
 		w.Distinct(h)
 	}
 	w.Extra("builder_ops", int64(len(hist)))
-	w.Sample(func() interface{} { return mon.D{"call": "Builder history", "presized": pre, "history": hist, "Offset": off} })
+	w.Sample(func() interface{} {
+		return mon.D{"call": "Builder history", "presized": pre, "history": hist, "Offset": off}
+	})
 }
